@@ -72,6 +72,7 @@ type FuncContract struct {
 	Header      string
 	MayPanic    bool
 	CallsArg    bool // the function's whole effect is to call its last argument (a func()) once
+	Merge       bool // verify with join merging even though the function is small (many returns x many clauses)
 	Bounded     []BoundedDef
 	RecvAssumes map[string][]*Clause
 	GhostSets   []GhostSet
@@ -547,6 +548,8 @@ func (sp *Specs) LoadFile(path, pkgName string) error {
 			}
 		case "callsarg":
 			cur.CallsArg = true
+		case "merge_paths":
+			cur.Merge = true
 		case "assume_pure":
 			sp.Pure = append(sp.Pure, splitList(rest)...)
 			cur = nil
